@@ -292,8 +292,8 @@ func putProtoLabelIndices(ctx *datastore.VersionedCtx, dataIn []byte) (numAdded,
 			return
 		}
 		uncacheLabelIndex(data, ctx.VersionID(), idx.Label)
-		if idx.Label > maxLabel {
-			maxLabel = idx.Label
+		if m := maxIDInIndex(protoIdx); m > maxLabel {
+			maxLabel = m
 		}
 	}
 	// handle updating the max label
@@ -351,10 +351,27 @@ func putLabelIndexAndMax(ctx *datastore.VersionedCtx, idx *labels.Index) error {
 	if !ok {
 		return fmt.Errorf("Unable to update max label during PUT label index due to bad data ptr")
 	}
-	_, err = d.updateMaxLabel(ctx.VersionID(), idx.Label)
+	_, err = d.updateMaxLabel(ctx.VersionID(), maxIDInIndex(&idx.LabelIndex))
 
 	// timedLog.Infof("stored label %d index with %d blocks", idx.Label, len(idx.Blocks))
 	return err
+}
+
+// maxIDInIndex returns the largest identifier an index uses: its body label or one of its
+// supervoxel ids.  Both come from the same label counter, which has to stay above all of them.
+func maxIDInIndex(idx *proto.LabelIndex) uint64 {
+	max := idx.Label
+	for _, svc := range idx.Blocks {
+		if svc == nil {
+			continue
+		}
+		for supervoxel := range svc.Counts {
+			if supervoxel > max {
+				max = supervoxel
+			}
+		}
+	}
+	return max
 }
 
 func deleteLabelIndex(ctx *datastore.VersionedCtx, label uint64) error {
